@@ -213,7 +213,13 @@ func runC01(tier string, seed uint64) {
 				}
 			}
 			// keys that would collide under a careless normalisation stay distinct objects
-			for gi, grp := range [][]string{{"tw/in", "tw_in", "tw\\in"}, {"Case", "case", "CASE"}, {"s p", "s+p", "s%20p"}, {"dot.", "dot", "dot.."}} {
+			groups := [][]string{{"tw/in", "tw_in", "tw\\in"}, {"Case", "case", "CASE"}, {"s p", "s+p", "s%20p"}, {"dot.", "dot", "dot.."}}
+			if kind == "mem" || kind == "bolt" {
+				// the key-value backends store keys as they come: a key that begins with slashes is another key
+				// (the fs backends refuse an empty path segment)
+				groups = append(groups, []string{"lead", "/lead", "//lead"}, []string{"in/ner", "in//ner", "/in/ner"})
+			}
+			for gi, grp := range groups {
 				for ti, k := range grp {
 					s.Put(b, k, []byte(fmt.Sprintf("twin-%d-%d-%s", gi, ti, k)), []KV{{"X-Amz-Meta-Twin", fmt.Sprintf("%d-%d", gi, ti)}, {"Content-Type", fmt.Sprintf("text/x-twin%d", ti)}})
 				}
